@@ -312,7 +312,7 @@ def _binding_selftest(ctx, b_events, mtrace):
 # ---------------------------------------------------------------------------------------- Miri
 
 def _run_miri(ctx, scratch, result):
-    """Thorough tier: a sample of the TLC-generated cases (every 40th state of Exp_quick, all
+    """Thorough tier: a sample of the TLC-generated cases (every 80th state of Exp_quick, all
     families) is executed on raw::Reader under Miri (nightly toolchain, if installed): an
     out-of-bounds / uninitialised / misaligned read on such a case is an error of the interpreter.
     This is an execution vehicle for the replay, not a second oracle (DESIGN section 7). Stacked
@@ -326,7 +326,7 @@ def _run_miri(ctx, scratch, result):
             result["miri"] = {"available": False, "why": probe.stdout.strip()[:200]}
             return
         tres, rc, out = core.tlc_pipe("DatafileCases.tla", "Exp_quick.cfg",
-                                      ["awk", '/^<<"C"/ { if (n++ % 40 == 0) print }'],
+                                      ["awk", '/^<<"C"/ { if (n++ % 80 == 0) print }'],
                                       cwd=CWD, workers=2, timeout=1200, env=_jenv(ctx))
         sample = os.path.join(ctx.workdir, "miri-cases.txt")
         with open(sample, "w") as fh:
